@@ -6,13 +6,34 @@
 // STIR's own event->bin code runs.  LmToProjData is driven through its public setters; the oracle is a
 // dictionary bin->count computed from the record list with the documented stream semantics.
 // Likelihood clause: PoissonLogLikelihoodWithLinearModelForMeanAndListModeDataWithProjMatrixByBin on the same
-// stream vs. the projection-data objective on the histogram vs. an explicit sparse matrix.
+// stream vs. the projection-data objective on the histogram vs. an explicit sparse matrix (+ a second object re-reading
+// the cache files of the first).
+// Extensions (entry-point audit, see DESIGN.md C14):
+//   A  frame definitions written as .fdef text / Interfile header and read back through TimeFrameDefinitions(filename);
+//   B  mode 3: LmToProjData configured with the keyword "frame_definition file" (or TimeFrameDefinitions(file) + setter), all
+//      other keywords through the parser, multi-frame runs with file and in-memory output, "maximum absolute segment number
+//      to process"; the complete lm_to_projdata route through a parameter FILE (input file, template file, frame file);
+//   D  record decoders: ECAT8 32-bit words (record level on the generated scanner, file level with a Siemens header on a
+//      predefined ECAT scanner), SAFIR / NeuroLF 64-bit records (file on a blocks-on-cylindrical scanner, also opened through
+//      its parameter file and the file-format registry);
+//   E  second run of an already used LmToProjData object.
 #include "stir_gen.h"
 #include "explicit_p.h"
+#include "c14_formats.h"
 #include "stir/listmode/CListModeData.h"
 #include "stir/listmode/CListRecord.h"
 #include "stir/listmode/CListEventScannerWithDiscreteDetectors.h"
 #include "stir/listmode/LmToProjData.h"
+#include "stir/listmode/CListModeDataSAFIR.h"
+#include "stir/listmode/CListRecordSAFIR.h"
+#include "stir/listmode/CListRecordECAT8_32bit.h"
+#include "stir/listmode/CListModeDataECAT8_32bit.h"
+#include "stir/listmode/CListEventCylindricalScannerWithDiscreteDetectors.h"
+#include "stir/ProjDataInfoGenericNoArcCorr.h"
+#include "stir/ProjDataInterfile.h"
+#include "stir/IO/read_from_file.h"
+#include "stir/listmode/ListModeData.h"
+#include "stir/IO/stir_ecat_common.h"
 #include "stir/TimeFrameDefinitions.h"
 #include "stir/ExamInfo.h"
 #include "stir/ProjData.h"
@@ -44,9 +65,27 @@ exclusions_on()
   }();
   return on;
 }
+//! one finding at a time: VERIF_C14_LIFT="F7,E1" lifts only these exclusions (used to show that a prepared repair works
+//! while the other known findings stay excluded); VERIF_NO_EXCLUDE=1 lifts all of them
+bool
+exclusion_on(const std::string& tag)
+{
+  if (!exclusions_on())
+    return false;
+  if (tag == "F7" || tag == "E1" || tag == "E2")
+    return false; // repaired in /repo (regression inputs replays/C14/fixed_*.json): part of the normal search again
+  const char* e = std::getenv("VERIF_C14_LIFT");
+  if (!e)
+    return true;
+  return (std::string(",") + e + ",").find("," + tag + ",") == std::string::npos;
+}
 
 //! narrow work-arounds are counted per finding (same counter names as the run-time uses for whole-case signatures)
 const char* const SIG_F5 = "C14:file-output:tof-template-mashed-to-one-tof-bin";
+const char* const SIG_F6 = "C14:frame-definition-file-keyword:num_events_to_store>0-ignored";
+const char* const SIG_F7 = "C14:max-segment-keyword:output-object-with-more-segments";
+const char* const SIG_E1 = "C14:object-reuse:time-frames-then-num_events_to_store";
+const char* const SIG_E2 = "C14:object-reuse:template-with-more-segments";
 void
 excluded(const char* sig)
 {
@@ -118,11 +157,13 @@ struct Decoder
 {
   int ndet, rings, ntof_scanner; // ntof_scanner = 0 for a non-TOF scanner
   bool has_delayeds;
+  int opp_half = 0; // > 0: detector pairs d1, d1 + ndet/2 +- opp_half (ECAT8 file sub-check)
+  long tick = 1; // ms per unit of the time increments (Case key "tick"; 25 or 125 put marks on the boundaries of frames read from files)
   unsigned long now = 0;
   std::vector<Rec> out;
   void time(long dt)
   {
-    now += static_cast<unsigned long>(std::max<long>(1, std::min<long>(dt, 1000000))); // marks strictly increase (ms)
+    now += static_cast<unsigned long>(std::max<long>(1, std::min<long>(dt, 1000000)) * tick); // marks strictly increase (ms)
     out.push_back(Rec{ 0, now, 0, 0, 0, 0, 0 });
   }
   void event(long kind, long a, long b, long c, long d, long e)
@@ -130,8 +171,16 @@ struct Decoder
     Rec r;
     r.kind = (kind == 2 && has_delayeds) ? 2 : 1;
     r.ms = 0;
-    r.d1 = int(pmod(a, ndet));
-    r.d2 = int((r.d1 + 1 + pmod(b, ndet - 1)) % ndet); // d1 != d2 by construction (the view/tangential lookup asserts it)
+    if (opp_half > 0)
+      { // large predefined scanners: nearly opposite detectors, so that most pairs fall inside a template with few tangential positions
+        r.d1 = int(pmod(a * 7919L + b, ndet));
+        r.d2 = int(pmod(r.d1 + ndet / 2 + pmod(b, 2 * opp_half + 1) - opp_half, ndet));
+      }
+    else
+      {
+        r.d1 = int(pmod(a, ndet));
+        r.d2 = int((r.d1 + 1 + pmod(b, ndet - 1)) % ndet); // d1 != d2 by construction (the view/tangential lookup asserts it)
+      }
     r.r1 = int(pmod(c, rings));
     r.r2 = int(pmod(d, rings));
     // unmashed TOF index: the scanner's range is -(N/2)..N/2; two steps outside on both sides are generated as well
@@ -181,13 +230,15 @@ struct Decoder
 };
 
 std::vector<Rec>
-decode_stream(const json& c, const Scanner& sc)
+decode_stream(const json& c, const Scanner& sc, int opp_half = 0)
 {
   Decoder d;
+  d.opp_half = opp_half;
   d.ndet = sc.get_num_detectors_per_ring();
   d.rings = sc.get_num_rings();
   d.ntof_scanner = sc.is_tof_ready() ? sc.get_max_num_timing_poss() : 0;
   d.has_delayeds = c["has_delayeds"].get<bool>();
+  d.tick = std::max(1L, std::min(1000L, c.value("tick", 1L)));
   for (const json& t : c["stream"])
     d.tuple(t);
   if (c.contains("bulk") && c["bulk"].is_object())
@@ -338,6 +389,7 @@ struct World
   shared_ptr<Scanner> sc;
   shared_ptr<ProjDataInfo> tmpl; // the template (the oracle's own object; LmToProjData clones what it is given)
   const ProjDataInfoCylindricalNoArcCorr* cyl = nullptr;
+  const ProjDataInfoGenericNoArcCorr* gen = nullptr; // blocks-on-cylindrical scanners (SAFIR sub-check only)
   std::vector<Rec> recs;
   bool has_delayeds = true;
   vp::ExplicitP index; // only pdi + enumeration are used here (bin <-> linear index)
@@ -410,7 +462,7 @@ bin_of(const World& w, const Rec& r)
 {
   Bin b;
   const DetectionPositionPair<> dp(DetectionPosition<>(r.d1, r.r1, 0), DetectionPosition<>(r.d2, r.r2, 0), r.tof);
-  if (w.cyl->get_bin_for_det_pos_pair(b, dp) != Succeeded::yes)
+  if ((w.cyl ? w.cyl->get_bin_for_det_pos_pair(b, dp) : w.gen->get_bin_for_det_pos_pair(b, dp)) != Succeeded::yes)
     return -1;
   return w.index.bin_index(b); // tests all five index ranges
 }
@@ -485,6 +537,13 @@ struct RunCfg
 {
   int nseg = -1, ntof = -1;
   bool to_file = false, tof_via_parser = false;
+  //! every option that has a keyword is given through the parser ("num_segments_in_memory", "Store prompts", "Store delayeds",
+  //! "num_events_to_store", "output filename prefix"), as in a .par file of lm_to_projdata; the input data and the template
+  //! are objects of the harness and are given through the setters afterwards
+  bool all_via_parser = false;
+  //! frames from a file: 0 = keyword "frame_definition file" (the only way that member can be set), 1 = TimeFrameDefinitions(file)
+  //! constructed by the caller and handed to set_time_frame_definitions
+  int frame_file_route = 0;
 };
 
 TimeFrameDefinitions
@@ -496,41 +555,118 @@ frames_of(const std::vector<std::pair<long, long>>& f)
   return TimeFrameDefinitions(v);
 }
 
-//! one process_data() call; returns one flattened histogram per frame (a single one when no frames are given)
+//! everything one process_data() call is configured with
+struct RunOpts
+{
+  std::vector<std::pair<long, long>> frames; // in-memory frame definitions (set_time_frame_definitions); ignored if frame_file is set
+  std::string frame_file;                    // frame definitions in a file (.fdef text or Interfile header)
+  std::size_t num_frames_in_file = 0;
+  long cut = 0;
+  bool store_prompts = true, store_delayeds = true;
+  int max_seg = -1; // keyword "maximum absolute segment number to process" (no setter exists); -1 = not given
+};
+
+//! flattened histogram in the enumeration of the (full) template; bins of segments that the output does not have stay 0
+std::vector<double>
+hist_of(const World& w, const ProjData& pd)
+{
+  std::vector<double> v(w.bins.size(), 0.);
+  const ProjDataInfo& p = *pd.get_proj_data_info_sptr();
+  for (int k = p.get_min_tof_pos_num(); k <= p.get_max_tof_pos_num(); ++k)
+    for (int s = p.get_min_segment_num(); s <= p.get_max_segment_num(); ++s)
+      for (int vw = p.get_min_view_num(); vw <= p.get_max_view_num(); ++vw)
+        {
+          const Viewgram<float> vg = pd.get_viewgram(vw, s, false, k);
+          for (int a = p.get_min_axial_pos_num(s); a <= p.get_max_axial_pos_num(s); ++a)
+            for (int t = p.get_min_tangential_pos_num(); t <= p.get_max_tangential_pos_num(); ++t)
+              {
+                const long idx = w.index.bin_index(Bin(s, vw, a, t, k));
+                if (idx < 0)
+                  throw std::runtime_error("output has a bin outside the template's ranges");
+                v[std::size_t(idx)] = vg[a][t];
+              }
+        }
+  return v;
+}
+
+//! one process_data() call; returns one flattened histogram per output (files: one per frame; in-memory object: one)
 std::vector<std::vector<double>>
 run_lm_to_projdata(const World& w,
-                   const shared_ptr<SyntheticCListModeData>& lm,
-                   const std::vector<std::pair<long, long>>& frames,
-                   long cut,
+                   const shared_ptr<CListModeData>& lm,
+                   const RunOpts& o,
                    const RunCfg& cfg,
-                   bool store_prompts,
-                   bool store_delayeds,
                    const std::string& dir,
-                   bool* did_time_frame = nullptr)
+                   bool* did_time_frame = nullptr,
+                   LmToProjDataWithTOFBatches* reuse = nullptr)
 {
-  LmToProjDataWithTOFBatches conv;
-  if (cfg.tof_via_parser)
-    {
-      std::istringstream par(cat("lm_to_projdata Parameters:=\nnum_TOF_bins_in_memory := ", cfg.ntof, "\nEND:=\n"));
-      conv.parse(par); // returns false (no input file keyword): ignored, see above
-    }
-  else
-    conv.set_num_TOF_bins_in_memory(cfg.ntof);
-  conv.set_input_data(static_pointer_cast<ExamData>(lm));
-  conv.set_template_proj_data_info_sptr(w.tmpl);
-  conv.set_num_segments_in_memory(cfg.nseg);
-  conv.set_store_prompts(store_prompts);
-  conv.set_store_delayeds(store_delayeds);
-  conv.set_num_events_to_store(cut);
-  if (!frames.empty())
-    conv.set_time_frame_definitions(frames_of(frames));
   static long run_counter = 0;
   const std::string prefix = cat(dir, "/out", run_counter++);
-  conv.set_output_filename_prefix(prefix); // set_up() insists on a prefix even when the output object is given
+  LmToProjDataWithTOFBatches fresh;
+  LmToProjDataWithTOFBatches& conv = reuse ? *reuse : fresh; // clause E: an object that has been used before
+  const bool frames_by_keyword = !o.frame_file.empty() && cfg.frame_file_route == 0;
+  {
+    // the parameter text (LmToProjData.h documents the keywords); parse() reports the missing "input file" keyword
+    // (post_processing), which is ignored: input data and template are given through the public setters afterwards
+    std::string par;
+    if (cfg.tof_via_parser || cfg.all_via_parser)
+      par += cat("  num_TOF_bins_in_memory := ", cfg.ntof, "\n");
+    if (frames_by_keyword)
+      par += cat("  frame_definition file := ", o.frame_file, "\n");
+    if (o.max_seg >= 0)
+      par += cat("  maximum absolute segment number to process := ", o.max_seg, "\n");
+    if (cfg.all_via_parser)
+      {
+        par += cat("  output filename prefix := ", prefix, "\n");
+        par += cat("  num_segments_in_memory := ", cfg.nseg, "\n");
+        par += cat("  store prompts := ", o.store_prompts ? 1 : 0, "\n");
+        par += cat("  store delayeds := ", o.store_delayeds ? 1 : 0, "\n");
+        par += cat("  num_events_to_store := ", o.cut, "\n");
+      }
+    if (!par.empty())
+      {
+        std::istringstream text("lm_to_projdata Parameters:=\n" + par + "END:=\n");
+        conv.parse(text);
+        stats().count("LmToProjData configured through the parser");
+      }
+    if (!(cfg.tof_via_parser || cfg.all_via_parser))
+      conv.set_num_TOF_bins_in_memory(cfg.ntof);
+  }
+  conv.set_input_data(static_pointer_cast<ExamData>(lm));
+  conv.set_template_proj_data_info_sptr(w.tmpl);
+  if (!cfg.all_via_parser)
+    {
+      conv.set_num_segments_in_memory(cfg.nseg);
+      conv.set_store_prompts(o.store_prompts);
+      conv.set_store_delayeds(o.store_delayeds);
+      conv.set_num_events_to_store(o.cut);
+      conv.set_output_filename_prefix(prefix); // set_up() insists on a prefix even when the output object is given
+    }
+  if (!o.frame_file.empty())
+    {
+      if (!frames_by_keyword)
+        conv.set_time_frame_definitions(TimeFrameDefinitions(o.frame_file));
+    }
+  else if (!o.frames.empty())
+    conv.set_time_frame_definitions(frames_of(o.frames));
   shared_ptr<ProjData> out;
+  // the geometry the output must have: the template, with the segment range reduced as documented for the keyword
+  shared_ptr<ProjDataInfo> want = w.tmpl->create_shared_clone();
+  if (o.max_seg >= 0)
+    {
+      const int m = std::min(o.max_seg, want->get_max_segment_num());
+      want->reduce_segment_range(-m, m);
+    }
   if (!cfg.to_file)
     {
-      out.reset(new ProjDataInMemory(lm->get_exam_info_sptr(), w.tmpl)); // zero-initialised
+      // zero-initialised output object.  With the segment keyword it has the reduced range (finding C14-F7: an output object
+      // with more segments than the reduced template makes process_data index its table of segments out of range)
+      bool full = true;
+      if (o.max_seg >= 0 && o.max_seg < w.tmpl->get_max_segment_num() && exclusion_on("F7"))
+        {
+          full = false;
+          excluded(SIG_F7);
+        }
+      out.reset(new ProjDataInMemory(lm->get_exam_info_sptr(), full ? w.tmpl : want));
       conv.set_output_projdata_sptr(out);
     }
   if (conv.set_up() != Succeeded::yes)
@@ -551,20 +687,42 @@ run_lm_to_projdata(const World& w,
   }
   std::vector<std::vector<double>> res;
   if (!cfg.to_file)
-    res.push_back(w.index.projdata_to_vec(*out));
+    res.push_back(hist_of(w, *out));
   else
     {
-      const std::size_t nf = frames.empty() ? 1 : frames.size();
+      const std::size_t nf = !o.frame_file.empty() ? o.num_frames_in_file : (o.frames.empty() ? 1 : o.frames.size());
       for (std::size_t f = 1; f <= nf; ++f)
         {
           const std::string name = cat(prefix, "_f", f, "g1d0b0.hs"); // documented naming of LmToProjData outputs
           shared_ptr<ProjData> pd = ProjData::read_from_file(name);
-          if (*pd->get_proj_data_info_sptr() != *w.tmpl)
+          if (*pd->get_proj_data_info_sptr() != *want)
             throw std::runtime_error("output file has a different projection data info than the template");
-          res.push_back(w.index.projdata_to_vec(*pd));
+          res.push_back(hist_of(w, *pd));
         }
+      if (std::filesystem::exists(cat(prefix, "_f", nf + 1, "g1d0b0.hs")))
+        throw std::runtime_error("more output files than frames");
     }
   return res;
+}
+
+//! the former interface (frames and options through the setters)
+std::vector<std::vector<double>>
+run_lm_to_projdata(const World& w,
+                   const shared_ptr<SyntheticCListModeData>& lm,
+                   const std::vector<std::pair<long, long>>& frames,
+                   long cut,
+                   const RunCfg& cfg,
+                   bool store_prompts,
+                   bool store_delayeds,
+                   const std::string& dir,
+                   bool* did_time_frame = nullptr)
+{
+  RunOpts o;
+  o.frames = frames;
+  o.cut = cut;
+  o.store_prompts = store_prompts;
+  o.store_delayeds = store_delayeds;
+  return run_lm_to_projdata(w, lm, o, cfg, dir, did_time_frame);
 }
 
 std::string
@@ -627,9 +785,11 @@ run_cfgs(const json& c, bool single_tof_bin_template, bool axial_range_not_from_
         x.ntof = (x.ntof == 0) ? 1 : -1;
       x.to_file = r[2].get<long>() != 0;
       x.tof_via_parser = r[3].get<long>() != 0;
+      x.all_via_parser = r.size() > 4 && r[4].get<long>() != 0;
+      x.frame_file_route = (r.size() > 5 && r[5].get<long>() != 0) ? 1 : 0;
       if (x.to_file && axial_range_not_from_zero)
         x.to_file = false; // the Interfile header stores only the NUMBER of axial positions: such a template cannot be a file
-      if (x.to_file && single_tof_bin_template && exclusions_on())
+      if (x.to_file && single_tof_bin_template && exclusion_on("F5"))
         { // finding C14-F5: the Interfile header LmToProjData writes for a TOF template mashed to ONE TOF bin cannot be read back
           x.to_file = false;
           excluded(SIG_F5);
@@ -641,10 +801,26 @@ run_cfgs(const json& c, bool single_tof_bin_template, bool axial_range_not_from_
   return v;
 }
 
+//! the frame-definition file of the Case.  Mode 3 histograms with it: all durations are then multiples of 125 ms = 1/8 s, so that
+//! every frame boundary (a sum of durations) is exact in binary and in integer ms, and "time mark >= frame end" is decided
+//! without rounding however the sum is formed (LmToProjData.cxx: "Direct comparison within doubles is unsafe").  In the other
+//! modes the file is only read back (clause A) and its durations are arbitrary multiples of 1 ms.
+c14f::Fdef
+fdef_of_case(const json& c)
+{
+  const json& j = c["fdef"];
+  long unit = std::max(1L, std::min(100000L, j.value("unit", 125L)));
+  if (c["mode"].get<int>() == 3)
+    unit = std::max(125L, unit / 125 * 125);
+  return c14f::decode_fdef(j, unit);
+}
+
 std::vector<std::pair<long, long>>
 frames_from_case(const json& c)
 {
   std::vector<std::pair<long, long>> f;
+  if (c["mode"].get<int>() == 3)
+    return c14f::fdef_frames_ms(fdef_of_case(c));
   if (c["mode"].get<int>() != 0)
     return f;
   std::vector<long> b;
@@ -952,7 +1128,825 @@ check_likelihood(const json& c, const World& w, const Selection& sel, const std:
         stats().maxi("max rel diff LM full gradient vs projdata full gradient", md / scale);
       VF_CHECK(md <= 1e-4 * scale, "list-mode gradient (with sensitivity) vs projection-data gradient ", ctx, ": max |diff| ", md, " scale ", scale);
     }
+  if (lmcache_used > 0 && L.value("reread", true))
+    {
+      // a second objective that re-uses the cache files of the first ("recompute cache := 0", how a second reconstruction of the
+      // same data is normally run): same data, same model => same gradient.  The class documents that nothing checks whether
+      // the cache belongs to the same frame etc.; here it does.  Tolerance 1e-5 of the maximum: the same events in the same
+      // order, only the order of the per-thread sums can differ.
+      LMObj lm2;
+      try
+        {
+          lm2.set_input_data(static_pointer_cast<ExamData>(lm));
+          lm2.set_proj_matrix(lik_matrix(L));
+          if (use_add)
+            lm2.set_additive_proj_data_sptr(add);
+          if (use_norm)
+            lm2.set_normalisation_sptr(shared_ptr<BinNormalisation>(new BinNormalisationFromProjData(mult)));
+          if (sel.use_time)
+            lm2.frame_defs = frames_of({ std::make_pair(sel.s_ms, sel.e_ms) });
+          lm2.set_num_subsets(nsub);
+          lm2.set_use_subset_sensitivities(true);
+          lm2.set_cache_path(dir);
+          lm2.set_recompute_cache(false);
+          lm2.set_cache_max_size(static_cast<unsigned long>(lmcache_used));
+          if (lm2.set_up(target) != Succeeded::yes)
+            return Result::fail("list-mode objective re-using the cache files of the first one: set_up failed " + ctx);
+        }
+      catch (const stir_verif::AssertionFailure&)
+        {
+          throw;
+        }
+      catch (const std::exception& e)
+        {
+          return Result::fail(cat("list-mode objective re-using the cache files of the first one: ", e.what(), " ", ctx));
+        }
+      shared_ptr<target_type> g2(target->get_empty_copy());
+      {
+        AssertsOff guard(empty_last_cache_batch);
+        lm2.compute_sub_gradient_without_penalty_plus_sensitivity(*g2, *target, subset);
+      }
+      std::vector<double> v2;
+      to_vec(v2, *g2);
+      PROPAGATE(compare_vec(v2, vlm, 1e-5, "list-mode gradient from re-read cache files vs the gradient of the object that wrote them " + ctx,
+                            "max rel diff LM gradient from re-read cache vs first object"));
+      stats().cls("likelihood: second object re-using the cache files");
+    }
   stats().cls("likelihood: compared");
+  return Result::pass();
+}
+
+// ---- clause A: frame definitions read from a file --------------------------------------------------------
+//! TimeFrameDefinitions(filename) for a '.fdef' text file or an Interfile header written by the harness must give the frames the
+//! text states (the harness's own reading, c14_formats.h).  The same sequential additions are used on both sides, so the values
+//! are expected to be identical; the tolerance 1e-12 (relative to 1 + |t|) only allows for another order of the additions
+//! (a wrong frame differs by at least one duration, >= 1e-3 s).
+Result
+check_frame_file(const json& c, const std::string& dir, std::string& path)
+{
+  const c14f::Fdef f = fdef_of_case(c);
+  path = cat(dir, "/frames", f.kind == 0 ? ".fdef" : ".hv");
+  c14f::write_text(path, c14f::fdef_text(f));
+  const std::vector<std::pair<double, double>> want = c14f::fdef_frames_secs(f);
+  stats().cls(f.kind == 0 ? "frame file: .fdef text" : "frame file: Interfile header");
+  bool skips = false, multi = false, neg = false;
+  for (auto& l : f.lines)
+    {
+      skips = skips || l.num == 0;
+      multi = multi || l.num > 1;
+      neg = neg || l.ms < 0;
+    }
+  if (skips)
+    stats().cls("frame file: with skip lines (0 duration)");
+  if (multi)
+    stats().cls("frame file: several frames per line");
+  if (neg)
+    stats().cls("frame file: leading negative skip");
+  const TimeFrameDefinitions tfd(path); // a valid file: an exception here is a failure of the case
+  VF_CHECK(tfd.get_num_frames() == want.size() && tfd.get_num_time_frames() == want.size(), "TimeFrameDefinitions(\"", path, "\") has ", tfd.get_num_frames(),
+           " frames, the text defines ", want.size(), "; text:\n", c14f::fdef_text(f));
+  auto close = [](double a, double b) {
+    const double d = std::fabs(a - b) / (1. + std::fabs(b));
+    stats().maxi("max rel diff frame time read from file vs text", d);
+    return d <= 1e-12;
+  };
+  for (unsigned k = 1; k <= want.size(); ++k)
+    {
+      const double s = want[k - 1].first, e = want[k - 1].second;
+      VF_CHECK(close(tfd.get_start_time(k), s) && close(tfd.get_end_time(k), e) && close(tfd.get_duration(k), e - s), "frame ", k, " of ", want.size(),
+               " read from ", f.kind == 0 ? ".fdef text" : "Interfile header", " is [", tfd.get_start_time(k), ",", tfd.get_end_time(k), ") duration ",
+               tfd.get_duration(k), ", the text defines [", s, ",", e, "); text:\n", c14f::fdef_text(f));
+      // get_time_frame_num: "frame number (between 1 and get_num_time_frames()) or 0 if frame not found"; it matches to 0.01 s, so
+      // any frame within that distance is an admissible answer
+      const unsigned r = tfd.get_time_frame_num(s, e);
+      VF_CHECK(r >= 1 && r <= want.size() && std::fabs(want[r - 1].first - s) < .0100001 && std::fabs(want[r - 1].second - e) < .0100001,
+               "get_time_frame_num(", s, ",", e, ") = ", r, " for frame ", k);
+    }
+  VF_CHECK(close(tfd.get_start_time(), want.front().first) && close(tfd.get_end_time(), want.back().second), "overall start/end [", tfd.get_start_time(), ",",
+           tfd.get_end_time(), ") vs text [", want.front().first, ",", want.back().second, ")");
+  // single-frame copy constructor used by LmToProjData for the per-frame exam info
+  {
+    const unsigned k = unsigned(want.size());
+    const TimeFrameDefinitions one(tfd, k);
+    VF_CHECK(one.get_num_frames() == 1 && one.get_start_time(1) == tfd.get_start_time(k) && one.get_end_time(1) == tfd.get_end_time(k),
+             "TimeFrameDefinitions(tfd, ", k, ") is not frame ", k);
+  }
+  // the same frames built with set_num_time_frames / set_time_frame and with the (start, duration) constructor
+  {
+    TimeFrameDefinitions built;
+    built.set_num_time_frames(int(want.size()));
+    std::vector<double> starts, durs;
+    for (unsigned k = 1; k <= want.size(); ++k)
+      {
+        built.set_time_frame(int(k), want[k - 1].first, want[k - 1].second);
+        starts.push_back(want[k - 1].first);
+        durs.push_back(want[k - 1].second - want[k - 1].first);
+      }
+    const TimeFrameDefinitions from_durations(starts, durs);
+    for (unsigned k = 1; k <= want.size(); ++k)
+      VF_CHECK(built.get_start_time(k) == want[k - 1].first && built.get_end_time(k) == want[k - 1].second && from_durations.get_start_time(k) == want[k - 1].first
+                   && close(from_durations.get_end_time(k), want[k - 1].second),
+               "frame ", k, " set with set_time_frame / (starts, durations): [", built.get_start_time(k), ",", built.get_end_time(k), ") / [", from_durations.get_start_time(k), ",",
+               from_durations.get_end_time(k), ") vs [", want[k - 1].first, ",", want[k - 1].second, ")");
+    VF_CHECK(built.get_num_frames() == want.size() && built == tfd && tfd == built, "TimeFrameDefinitions built with the setters does not compare equal to the one read from the file");
+  }
+  stats().count("frame files read back");
+  return Result::pass();
+}
+
+// ---- clause E: an LmToProjData object that has been used before ---------------------------------------------------------------
+//! The public setters reset the "already set up" flag, i.e. the class supports being configured again; the second run of one
+//! object (every option given again through the setters, set_up() called again) must give what a fresh object gives = the
+//! event dictionary.  Histories: 0 time frame -> num_events_to_store; 1 num_events_to_store -> time frame; 2 input without
+//! delayeds -> input with delayeds; 3 template with segment 0 only -> full template; 4 the same configuration twice.
+Result
+check_reuse(const json& c, const World& w, const std::vector<RunCfg>& cfgs, bool store_prompts, bool store_delayeds, const std::string& dir)
+{
+  int H = int(pmod(c["hist"].get<long>(), 5));
+  if (const char* e = std::getenv("VERIF_C14_HIST")) // development aid: force one history
+    H = int(pmod(std::atol(e), 5));
+  long tmax = 0;
+  for (const Rec& r : w.recs)
+    if (r.kind == 0)
+      tmax = long(r.ms);
+  std::vector<std::pair<long, long>> F;
+  {
+    const auto fr = frames_from_case(c);
+    // a frame starting at 0: with num_events_to_store > 0 "frame definitions will be ignored", but the start is still used to skip
+    F.push_back(std::make_pair(0L, !fr.empty() ? std::max(20L, fr.front().second) : std::max(20L, tmax / 2 + 1)));
+  }
+  const long N = std::max(1L, c["cut"].get<long>());
+  RunCfg ca = cfgs.front(), cb = cfgs.back();
+  for (RunCfg* x : { &ca, &cb })
+    {
+      x->to_file = false;
+      x->all_via_parser = false;
+      x->tof_via_parser = false;
+    }
+  if (H == 0 && exclusion_on("E1"))
+    { // finding C14-E1: do_time_frame is only ever switched on by set_up(); an object that has histogrammed a time frame ignores num_events_to_store
+      excluded(SIG_E1);
+      return Result::pass();
+    }
+  if (H == 3 && w.tmpl->get_max_segment_num() > 0 && exclusion_on("E2"))
+    { // finding C14-E2: set_up() overwrites the "all segments" default (-1) of max_segment_num_to_process with the first template's maximum
+      excluded(SIG_E2);
+      return Result::pass();
+    }
+  LmToProjDataWithTOFBatches conv;
+  shared_ptr<CListModeData> lm(new SyntheticCListModeData(w.recs, w.tmpl, w.has_delayeds));
+  RunOpts oa, ob;
+  oa.store_prompts = ob.store_prompts = store_prompts;
+  oa.store_delayeds = ob.store_delayeds = store_delayeds;
+  Selection sb;
+  World wa = w;
+  shared_ptr<CListModeData> lma = lm;
+  std::string what;
+  switch (H)
+    {
+    case 0:
+      oa.frames = F;
+      ob.frames = F;
+      ob.cut = N;
+      sb.cut = N;
+      what = cat("first run: time frame [0,", F[0].second, ") ms; second run: num_events_to_store ", N);
+      break;
+    case 1:
+      oa.cut = N;
+      ob.frames = F;
+      sb.use_time = true;
+      sb.s_ms = F[0].first;
+      sb.e_ms = F[0].second;
+      what = cat("first run: num_events_to_store ", N, "; second run: time frame [0,", F[0].second, ") ms");
+      break;
+    case 2: {
+      std::vector<Rec> prompts_only;
+      for (const Rec& r : w.recs)
+        if (r.kind != 2)
+          prompts_only.push_back(r);
+      lma.reset(new SyntheticCListModeData(prompts_only, w.tmpl, false));
+      what = "first run: list-mode data without delayeds; second run: list-mode data with delayeds";
+      break;
+    }
+    case 3:
+      wa.tmpl = w.tmpl->create_shared_clone();
+      wa.tmpl->reduce_segment_range(0, 0);
+      wa.cyl = dynamic_cast<const ProjDataInfoCylindricalNoArcCorr*>(wa.tmpl.get());
+      wa.index.pdi = wa.tmpl;
+      vp::ExplicitP::enumerate_bins(*wa.tmpl, wa.index.bins);
+      wa.bins = wa.index.bins;
+      what = cat("first run: template with segment 0 only; second run: template with segments ", w.tmpl->get_min_segment_num(), "..", w.tmpl->get_max_segment_num());
+      break;
+    default:
+      oa.frames = ob.frames = F;
+      sb.use_time = true;
+      sb.s_ms = F[0].first;
+      sb.e_ms = F[0].second;
+      what = "the same time frame twice";
+      break;
+    }
+  (void)run_lm_to_projdata(wa, lma, oa, ca, dir, nullptr, &conv);
+  const auto res = run_lm_to_projdata(w, lm, ob, cb, dir, nullptr, &conv);
+  const Expect ex = expected(w, sb, store_prompts, store_delayeds);
+  PROPAGATE(compare_hist(w, res[0], ex.hist, cat("second run of one LmToProjData object (", what, "; every option set again, set_up() called again)")));
+  stats().cls(cat("object reuse: history ", H));
+  stats().count("LmToProjData runs", 2);
+  return Result::pass();
+}
+
+// ---- clause D: record decoders of the list-mode file formats named in the anchors ----------------------------
+//! ECAT8 / PETLINK 32-bit words.  CListRecordECAT8_32bit.h: "the listmode data just stores an offset into a (3D) sinogram"
+//! (no axial compression), "data is organised by segment, axial coordinate, view, tangential" (CListRecordECAT8_32bit.cxx),
+//! segments in the order 0, -1, +1, ... (stir_ecat_common.h).  The harness encodes every event of the stream from the bin that the
+//! uncompressed geometry assigns to its detector pair (C01's map), lets STIR decode the word and demands the same uncompressed
+//! bin, the same template bin as for the original pair, the prompt/delayed flag and the time of time words.
+//! Not decided here: the ORDER of the TOF bins in the offset (the header text says "0, -1, +1", the code of
+//! find_timing_poss_sequence produces 0, +1, -1; no Siemens document is available here): the position of a TOF bin in the
+//! sequence is taken from that (non-anchor) helper, everything else of the offset arithmetic is the harness's own.
+Result
+check_ecat8_records(const World& w)
+{
+  const Scanner& sc = *w.sc;
+  shared_ptr<ProjDataInfo> unc(ProjDataInfo::construct_proj_data_info(w.sc, 1, sc.get_num_rings() - 1, sc.get_num_detectors_per_ring() / 2,
+                                                                     sc.get_max_num_non_arccorrected_bins(), false, sc.is_tof_ready() ? 1 : 0)
+                                   .release());
+  const ProjDataInfoCylindricalNoArcCorr* ucyl = dynamic_cast<const ProjDataInfoCylindricalNoArcCorr*>(unc.get());
+  if (!ucyl)
+    return Result::pass();
+  ecat::CListRecordECAT8_32bit rec_obj(unc);
+  CListRecord& rec = rec_obj; // is_time() etc. are private in the derived class and public in CListRecord
+  const int ntang = unc->get_num_tangential_poss(), nviews = unc->get_num_views(), nsino = unc->get_num_non_tof_sinograms();
+  // sinogram offset of every segment in the documented order 0, -1, +1, -2, +2, ...
+  std::map<int, long> seg_offset;
+  {
+    long z = 0;
+    for (int a = 0; a <= unc->get_max_segment_num(); ++a)
+      for (int sg : (a == 0 ? std::vector<int>{ 0 } : std::vector<int>{ -a, a }))
+        {
+          seg_offset[sg] = z;
+          z += unc->get_num_axial_poss(sg);
+        }
+    VF_CHECK(z == nsino, "ECAT8: number of sinograms ", nsino, " vs sum over segments ", z);
+  }
+  const std::vector<int> tof_seq = ecat::find_timing_poss_sequence(*unc);
+  long n_ev = 0, n_tm = 0;
+  for (const Rec& r : w.recs)
+    {
+      unsigned char bytes[4];
+      auto load = [&](std::uint32_t word) {
+        for (int i = 0; i < 4; ++i)
+          bytes[i] = static_cast<unsigned char>((word >> (8 * i)) & 0xffu);
+        rec_obj.init_from_data_ptr(reinterpret_cast<const char*>(bytes), 4, ByteOrder::get_native_order() != ByteOrder::little_endian);
+      };
+      if (r.kind == 0)
+        {
+          if (r.ms >= (1UL << 29))
+            continue; // 29 bits of time
+          load(c14f::ecat8_time(std::uint32_t(r.ms)));
+          VF_CHECK(rec.is_time() && !rec.is_event(), "ECAT8 time word for ", r.ms, " ms: is_time ", rec.is_time(), " is_event ", rec.is_event());
+          VF_CHECK(rec.time().get_time_in_millisecs() == r.ms, "ECAT8 time word for ", r.ms, " ms decodes to ", rec.time().get_time_in_millisecs(), " ms");
+          load(c14f::ecat8_other_tag(std::uint32_t(r.ms), 1 + unsigned(r.ms % 3)));
+          VF_CHECK(!rec.is_time() && !rec.is_event(), "ECAT8 tag word that is not a time tick (deadtimeetc != 0): is_time ", rec.is_time(), " is_event ", rec.is_event());
+          ++n_tm;
+          continue;
+        }
+      if (n_ev >= 400)
+        continue;
+      const DetectionPositionPair<> dp(DetectionPosition<>(r.d1, r.r1, 0), DetectionPosition<>(r.d2, r.r2, 0), r.tof);
+      Bin b;
+      if (ucyl->get_bin_for_det_pos_pair(b, dp) != Succeeded::yes)
+        continue; // TOF index outside the scanner's range: no uncompressed bin, nothing to encode
+      if (w.index.pdi.get() == nullptr)
+        continue;
+      if (b.tangential_pos_num() < unc->get_min_tangential_pos_num() || b.tangential_pos_num() > unc->get_max_tangential_pos_num()
+          || b.timing_pos_num() < unc->get_min_tof_pos_num() || b.timing_pos_num() > unc->get_max_tof_pos_num())
+        continue; // pair outside the uncompressed sinogram (tangentially): cannot be stored in this format
+      long tof_idx = -1;
+      for (std::size_t i = 0; i < tof_seq.size(); ++i)
+        if (tof_seq[i] == b.timing_pos_num())
+          tof_idx = long(i);
+      VF_CHECK(tof_idx >= 0, "ECAT8: TOF bin ", b.timing_pos_num(), " not in the sequence");
+      const long z = seg_offset[b.segment_num()] + (b.axial_pos_num() - unc->get_min_axial_pos_num(b.segment_num()));
+      const long offset = ((tof_idx * nsino + z) * nviews + (b.view_num() - unc->get_min_view_num())) * ntang + (b.tangential_pos_num() + ntang / 2);
+      if (offset >= (1L << 30))
+        continue;
+      load(c14f::ecat8_event(std::uint32_t(offset), r.kind == 1));
+      VF_CHECK(rec.is_event() && !rec.is_time(), "ECAT8 event word: is_event ", rec.is_event(), " is_time ", rec.is_time());
+      VF_CHECK(rec.event().is_prompt() == (r.kind == 1), "ECAT8 event word with delayed bit ", r.kind == 1 ? 1 : 0, " ('0 if event is delayed'): is_prompt ",
+               rec.event().is_prompt());
+      const auto& dev = dynamic_cast<const CListEventCylindricalScannerWithDiscreteDetectors&>(rec.event());
+      DetectionPositionPair<> dp2;
+      dev.get_detection_position(dp2);
+      Bin b2;
+      VF_CHECK(ucyl->get_bin_for_det_pos_pair(b2, dp2) == Succeeded::yes && b2.segment_num() == b.segment_num() && b2.axial_pos_num() == b.axial_pos_num()
+                   && b2.view_num() == b.view_num() && b2.tangential_pos_num() == b.tangential_pos_num() && b2.timing_pos_num() == b.timing_pos_num(),
+               "ECAT8 offset ", offset, " encoded from uncompressed bin ", show_bin(b), " (detectors ", r.d1, "/", r.r1, " - ", r.d2, "/", r.r2, " tof ", r.tof,
+               ") decodes to detectors ", dp2.pos1().tangential_coord(), "/", dp2.pos1().axial_coord(), " - ", dp2.pos2().tangential_coord(), "/",
+               dp2.pos2().axial_coord(), " tof ", dp2.timing_pos(), " = uncompressed bin ", show_bin(b2));
+      Bin bt;
+      bt.set_bin_value(1.f);
+      rec.event().get_bin(bt, *w.tmpl);
+      const long got = bt.get_bin_value() > 0 ? w.index.bin_index(bt) : -1;
+      const long want = bin_of(w, r);
+      VF_CHECK(got == want, "ECAT8 event (offset ", offset, ", detectors ", r.d1, "/", r.r1, " - ", r.d2, "/", r.r2, " tof ", r.tof, "): get_bin gives template bin index ", got,
+               got >= 0 ? show_bin(w.bins[std::size_t(got)]) : std::string(), ", the geometry assigns ", want, want >= 0 ? show_bin(w.bins[std::size_t(want)]) : std::string());
+      ++n_ev;
+    }
+  stats().count("ECAT8 event words round-tripped", n_ev);
+  stats().count("ECAT8 time words round-tripped", n_tm);
+  if (n_ev)
+    stats().cls("ECAT8 record decoder round trip");
+  return Result::pass();
+}
+
+Result lm_to_projdata_route(const World& w,
+                            const std::string& input_file,
+                            const std::vector<std::pair<long, long>>& frames,
+                            const std::vector<Expect>& ex,
+                            bool store_prompts,
+                            bool store_delayeds,
+                            int nseg_mem,
+                            const std::string& dir,
+                            const std::string& label);
+
+template <class RecordT>
+Result
+safir_records_roundtrip(CListModeData& lm, const World& w, const std::string& label)
+{
+  lm.reset();
+  shared_ptr<CListRecord> rec_sptr = lm.get_empty_record_sptr();
+  CListRecord& rec = *rec_sptr;
+  std::size_t n = 0;
+  while (lm.get_next_record(rec) == Succeeded::yes)
+    {
+      VF_CHECK(n < w.recs.size(), label, " file with ", w.recs.size(), " records: more records read");
+      const Rec& r = w.recs[n];
+      if (r.kind == 0)
+        {
+          VF_CHECK(rec.is_time() && !rec.is_event(), label, " record ", n, " (time ", r.ms, " ms): is_time ", rec.is_time(), " is_event ", rec.is_event());
+          VF_CHECK(rec.time().get_time_in_millisecs() == r.ms, label, " time record ", n, ": ", rec.time().get_time_in_millisecs(), " ms, written ", r.ms);
+        }
+      else
+        {
+          VF_CHECK(rec.is_event() && !rec.is_time(), label, " record ", n, " (event): is_event ", rec.is_event(), " is_time ", rec.is_time());
+          VF_CHECK(rec.event().is_prompt() == (r.kind == 1), label, " event record ", n, " written with isDelayed = ", r.kind == 2, ": is_prompt() = ", rec.event().is_prompt());
+          RecordT* typed = dynamic_cast<RecordT*>(&rec);
+          VF_CHECK(typed != nullptr, label, ": record object is not of the expected record class");
+          DetectionPositionPair<> dp;
+          typed->get_data().get_detection_position_pair(dp);
+          VF_CHECK(int(dp.pos1().tangential_coord()) == r.d1 && int(dp.pos1().axial_coord()) == r.r1 && int(dp.pos2().tangential_coord()) == r.d2
+                       && int(dp.pos2().axial_coord()) == r.r2 && dp.pos1().radial_coord() == 0 && dp.pos2().radial_coord() == 0,
+                   label, " event record ", n, " written for detectors ", r.d1, "/", r.r1, " - ", r.d2, "/", r.r2, " decodes to ", dp.pos1().tangential_coord(), "/",
+                   dp.pos1().axial_coord(), "/", dp.pos1().radial_coord(), " - ", dp.pos2().tangential_coord(), "/", dp.pos2().axial_coord(), "/", dp.pos2().radial_coord());
+          const LORAs2Points<float> lor = rec.event().get_LOR();
+          // (the scanner of the list-mode data itself: read from a template file it equals the World's only to header precision)
+          const Scanner& lsc = *lm.get_proj_data_info_sptr()->get_scanner_ptr();
+          const CartesianCoordinate3D<float> c1 = lsc.get_coordinate_for_det_pos(DetectionPosition<>(r.d1, r.r1, 0)),
+                                             c2 = lsc.get_coordinate_for_det_pos(DetectionPosition<>(r.d2, r.r2, 0));
+          VF_CHECK(norm(lor.p1() - c1) == 0 && norm(lor.p2() - c2) == 0, label, " event record ", n, ": get_LOR() is not the pair of crystal coordinates of detectors ", r.d1,
+                   "/", r.r1, " - ", r.d2, "/", r.r2);
+          Bin bt;
+          bt.set_bin_value(1.f);
+          rec.event().get_bin(bt, *w.tmpl);
+          const long got = bt.get_bin_value() > 0 ? w.index.bin_index(bt) : -1;
+          const long want = bin_of(w, r);
+          VF_CHECK(got == want, label, " event record ", n, " (detectors ", r.d1, "/", r.r1, " - ", r.d2, "/", r.r2, "): get_bin gives template bin index ", got,
+                   ", the geometry assigns ", want);
+        }
+      ++n;
+    }
+  VF_CHECK(n == w.recs.size(), label, " file with ", w.recs.size(), " records: ", n, " records read");
+  stats().count("SAFIR records round-tripped", long(n));
+  lm.reset();
+  return Result::pass();
+}
+
+//! SAFIR 64-bit records read from a file through CListModeDataSAFIR (public constructor taking the file and the projection
+//! data info; without a crystal map "the scanner detectors will be used", SAFIRCListmodeInputFileFormat.h, which needs a
+//! scanner that HAS a detector map: blocks-on-cylindrical geometry).  Round trip of every record (detector pair, rings,
+//! layers, prompt/delayed flag, time), get_LOR() = coordinates of the two crystals, get_bin() = the geometry's bin, and
+//! LmToProjData on that file (prompts only: the class reports has_delayeds() == false) against the event dictionary.
+Result
+check_safir(const json& c, const std::string& dir)
+{
+  const json& S = c["safir"];
+  World w;
+  try
+    {
+      w.sc = vg::make_scanner(S["scanner"]);
+      if (w.sc->check_consistency() != Succeeded::yes)
+        return Result::pass();
+      w.tmpl = vg::make_pdi(w.sc, S["pdi"]);
+      w.gen = dynamic_cast<const ProjDataInfoGenericNoArcCorr*>(w.tmpl.get());
+      if (!w.gen || !w.sc->get_detector_map_sptr())
+        return Result::pass();
+    }
+  catch (const stir_verif::AssertionFailure&)
+    {
+      throw;
+    }
+  catch (const std::exception& e)
+    {
+      stats().count("SAFIR sub-check: geometry rejected");
+      return Result::pass();
+    }
+  w.has_delayeds = true; // the records carry the flag
+  {
+    json cc = c;
+    cc["has_delayeds"] = true;
+    w.recs = decode_stream(cc, *w.sc);
+  }
+  w.index.pdi = w.tmpl;
+  vp::ExplicitP::enumerate_bins(*w.tmpl, w.index.bins);
+  w.bins = w.index.bins;
+
+  std::vector<std::uint64_t> words;
+  for (const Rec& r : w.recs)
+    words.push_back(r.kind == 0 ? c14f::safir_time(r.ms) : c14f::safir_event(unsigned(r.r1), unsigned(r.r2), unsigned(r.d1), unsigned(r.d2), 0, 0, r.kind == 2));
+  const std::string file = cat(dir, "/lm.clm.safir");
+  c14f::write_safir_file(file, words);
+  typedef CListRecordSAFIR<CListEventDataSAFIR> RecordT;
+  typedef CListRecordSAFIR<CListEventDataNeuroLF> RecordNLF; // same layout with 3-bit layer fields: identical words for layer 0
+  shared_ptr<CListModeData> lm(new CListModeDataSAFIR<RecordT>(file, w.tmpl));
+
+  // ---- record by record
+  PROPAGATE(safir_records_roundtrip<RecordT>(*lm, w, "SAFIR"));
+  {
+    CListModeDataSAFIR<RecordNLF> lm_nlf(file, w.tmpl);
+    PROPAGATE(safir_records_roundtrip<RecordNLF>(lm_nlf, w, "NeuroLF"));
+  }
+  // ---- the same file opened the way a user does: a parameter file (SAFIRCListmodeInputFileFormat.h) naming the data file and a
+  //      template projection data file, through read_from_file<ListModeData> (file-format registry).  Needs the template as an
+  //      Interfile file, which the generic geometry can write only for span 1 (see below).
+  std::string safir_par;
+  if (S["pdi"]["span"].get<int>() == 1)
+    {
+      const std::string tmpl_name = cat(dir, "/safir_template");
+      {
+        shared_ptr<ExamInfo> exam(new ExamInfo(ImagingModality::PT));
+        ProjDataInterfile tmpl_file(exam, w.tmpl, tmpl_name, std::ios::out);
+      }
+      shared_ptr<ProjDataInfo> tmpl_read = ProjData::read_from_file(tmpl_name + ".hs")->get_proj_data_info_sptr()->create_shared_clone();
+      if (*tmpl_read == *w.tmpl)
+        {
+          safir_par = cat(dir, "/safir_lm.par");
+          c14f::write_text(safir_par, cat("CListModeDataSAFIR Parameters:=\n  listmode data filename:= ", file, "\n  template projection data filename:= ", tmpl_name,
+                                          ".hs\nEND CListModeDataSAFIR Parameters:=\n"));
+          shared_ptr<ListModeData> lm_reg(stir::read_from_file<ListModeData>(safir_par));
+          CListModeData* clm = dynamic_cast<CListModeData*>(lm_reg.get());
+          VF_CHECK(clm != nullptr, "SAFIR parameter file: read_from_file<ListModeData> did not return coincidence list-mode data");
+          VF_CHECK(*clm->get_proj_data_info_sptr() == *w.tmpl, "SAFIR parameter file: projection data info of the list-mode data differs from the template file");
+          PROPAGATE(safir_records_roundtrip<RecordT>(*clm, w, "SAFIR (parameter file through the registry)"));
+          stats().cls("SAFIR file opened through its parameter file (registry)");
+        }
+      else
+        stats().count("SAFIR parameter-file route skipped: template not preserved by the Interfile file");
+    }
+
+  // ---- LmToProjData on the SAFIR file, prompts only, frames of the Case (or the whole stream)
+  std::vector<std::pair<long, long>> frames = frames_from_case(c);
+  if (frames.size() > 3)
+    frames.resize(3);
+  std::vector<Expect> ex;
+  if (frames.empty())
+    ex.push_back(expected(w, Selection(), true, false));
+  for (auto& fr : frames)
+    {
+      Selection sel;
+      sel.use_time = true;
+      sel.s_ms = fr.first;
+      sel.e_ms = fr.second;
+      ex.push_back(expected(w, sel, true, false));
+    }
+  {
+    long acc = 0;
+    for (auto& e : ex)
+      acc += e.n_accepted;
+    stats().count("SAFIR file: events accepted by the template in the frames", acc);
+  }
+  for (int pass = 0; pass < 2; ++pass)
+    {
+      RunCfg cfg;
+      // file output only for span 1: the Interfile header writer needs get_LOR() of the bins, which the generic geometry refuses for
+      // axially compressed data (error(): "get_ring_pair_for_segment_axial_pos_num does not work for data with axial compression")
+      cfg.to_file = pass == 1 && S["pdi"]["span"].get<int>() == 1;
+      cfg.nseg = pass == 0 ? -1 : 1 + int(S.value("nseg", 0L) % std::max(1, w.tmpl->get_num_segments()));
+      cfg.all_via_parser = pass == 1;
+      RunOpts o;
+      o.frames = frames;
+      o.store_prompts = true;
+      o.store_delayeds = false;
+      const auto res = run_lm_to_projdata(w, lm, o, cfg, dir);
+      const std::string ctx = cat("SAFIR list-mode file, prompts only, num_segments_in_memory ", cfg.nseg, ", ", cfg.to_file ? "file" : "in-memory", " output");
+      if (cfg.to_file)
+        {
+          VF_CHECK(res.size() == ex.size(), ctx, ": ", res.size(), " outputs for ", ex.size(), " frames");
+          for (std::size_t f = 0; f < ex.size(); ++f)
+            PROPAGATE(compare_hist(w, res[f], ex[f].hist, cat(ctx, ", frame ", f + 1, " of ", ex.size())));
+        }
+      else
+        PROPAGATE(compare_hist(w, res[0], ex.back().hist, cat(ctx, ", last frame (", ex.size(), ")")));
+      stats().count("LmToProjData runs");
+    }
+  if (!safir_par.empty())
+    PROPAGATE(lm_to_projdata_route(w, safir_par, frames, ex, true, false, 1 + int(S.value("nseg", 0L) % std::max(1, w.tmpl->get_num_segments())), dir,
+                                   "SAFIR parameter file as input file"));
+  stats().cls("SAFIR file: records round trip + LmToProjData");
+  return Result::pass();
+}
+
+//! The route of the lm_to_projdata utility: a parameter FILE (keywords as in the repository's recon_test_pack/lm_to_projdata.par)
+//! naming the list-mode input file, the template projection data file, the frame definition file and the output prefix, given to
+//! LmToProjData(par_filename); process_data() then writes one Interfile file per frame.
+Result
+lm_to_projdata_route(const World& w,
+                     const std::string& input_file,
+                     const std::vector<std::pair<long, long>>& frames,
+                     const std::vector<Expect>& ex,
+                     bool store_prompts,
+                     bool store_delayeds,
+                     int nseg_mem,
+                     const std::string& dir,
+                     const std::string& label)
+{
+  static long counter = 0;
+  const std::string tag = cat("route", counter++);
+  const std::string tmpl_name = cat(dir, "/", tag, "_template");
+  shared_ptr<ProjDataInfo> tmpl_read;
+  {
+    shared_ptr<ExamInfo> exam(new ExamInfo(ImagingModality::PT));
+    ProjDataInterfile tmpl_file(exam, w.tmpl, tmpl_name, std::ios::out);
+  }
+  tmpl_read = ProjData::read_from_file(tmpl_name + ".hs")->get_proj_data_info_sptr()->create_shared_clone();
+  if (*tmpl_read != *w.tmpl)
+    { // what a projection-data file preserves is C02's subject; this route needs the template as a file
+      stats().count("lm_to_projdata route skipped: template not preserved by the Interfile file");
+      return Result::pass();
+    }
+  // frames: a .fdef file written from the frames in ms
+  std::string frame_file;
+  if (!frames.empty())
+    {
+      frame_file = cat(dir, "/", tag, "_frames.fdef");
+      std::string t;
+      long prev = 0;
+      for (auto& fr : frames)
+        {
+          if (fr.first != prev)
+            t += cat("0 ", c14f::ms_text(fr.first - prev, 0), "\n");
+          t += cat("1 ", c14f::ms_text(fr.second - fr.first, 1), "\n");
+          prev = fr.second;
+        }
+      c14f::write_text(frame_file, t);
+      // ms-resolution durations: the sums are exact only for multiples of 1/8 s; otherwise a time mark on a boundary that is a
+      // rounded sum of decimal fractions is undecidable (the first frame end of a file starting at 0 is a single number: exact)
+      bool exact = true;
+      for (auto& fr : frames)
+        exact = exact && fr.first % 125 == 0 && fr.second % 125 == 0;
+      if (!exact)
+        for (const Rec& r : w.recs)
+          if (r.kind == 0)
+            for (std::size_t f = 0; f < frames.size(); ++f)
+              {
+                // exact: the start of the first frame (0 or one written number) and its end if it starts at 0 (one written number)
+                const bool start_exact = f == 0, end_exact = f == 0 && frames[0].first == 0;
+                if ((long(r.ms) == frames[f].first && !start_exact) || (long(r.ms) == frames[f].second && !end_exact))
+                  frame_file.clear();
+              }
+      if (frame_file.empty())
+        {
+          stats().count("lm_to_projdata route skipped: time mark on an inexact boundary");
+          return Result::pass();
+        }
+    }
+  const std::string prefix = cat(dir, "/", tag, "_out");
+  const std::string par_name = cat(dir, "/", tag, "_lm_to_projdata.par");
+  c14f::write_text(par_name, cat("lm_to_projdata Parameters:=\n  input file := ", input_file, "\n  output filename prefix := ", prefix, "\n  template_projdata := ", tmpl_name,
+                                 ".hs\n  maximum absolute segment number to process := -1\n  ; store the prompts (value should be 1 or 0)\n  store prompts := ",
+                                 store_prompts ? 1 : 0, "\n  store delayeds := ", store_delayeds ? 1 : 0, "\n",
+                                 frame_file.empty() ? std::string() : cat("  frame definition file := ", frame_file, "\n"), "  List event coordinates := 0\n  num_segments_in_memory := ",
+                                 nseg_mem, "\nEnd :=\n"));
+  {
+    struct CoutSilencer
+    {
+      std::ostringstream sink;
+      std::streambuf* old;
+      CoutSilencer() : old(std::cout.rdbuf(sink.rdbuf())) {}
+      ~CoutSilencer() { std::cout.rdbuf(old); }
+    } silence;
+    LmToProjData conv(par_name.c_str());
+    conv.process_data();
+  }
+  for (std::size_t f = 1; f <= ex.size(); ++f)
+    {
+      shared_ptr<ProjData> pd = ProjData::read_from_file(cat(prefix, "_f", f, "g1d0b0.hs"));
+      VF_CHECK(*pd->get_proj_data_info_sptr() == *w.tmpl, "lm_to_projdata route: output file ", f, " has a different projection data info than the template file");
+      PROPAGATE(compare_hist(w, hist_of(w, *pd), ex[f - 1].hist,
+                             cat("lm_to_projdata route (parameter file, ", label, ", template file, ", frame_file.empty() ? "no frame file" : "frame definition file",
+                                 ", num_segments_in_memory ", nseg_mem, "), frame ", f, " of ", ex.size())));
+    }
+  VF_CHECK(!std::filesystem::exists(cat(prefix, "_f", ex.size() + 1, "g1d0b0.hs")), "lm_to_projdata route: more output files than frames");
+  stats().count("LmToProjData runs");
+  stats().cls("lm_to_projdata route: everything through files (parameter file, list-mode file, template, frames)");
+  return Result::pass();
+}
+
+//! ECAT8 list-mode FILE (Siemens Interfile header + 32-bit words) for a predefined scanner, read through
+//! CListModeDataECAT8_32bit, and the complete route of the lm_to_projdata utility: a parameter FILE with "input file",
+//! "template_projdata", "frame_definition file", "output filename prefix", ... given to LmToProjData(par_filename).
+//! The header describes the uncompressed sinogram the offsets refer to (axial compression 1, views / projections of the scanner;
+//! the maximum ring difference may be smaller than rings-1, as in the mMR header of the repository's examples; such events
+//! cannot be written).  The harness computes the offset of every event from the bin the header's geometry assigns to the pair.
+Result
+check_ecat8_file(const json& c, const std::string& dir)
+{
+  const json& E = c["e8"];
+  World w;
+  shared_ptr<ProjDataInfo> hdr_pdi;
+  int hdr_md = 0;
+  try
+    {
+      w.sc.reset(Scanner::get_scanner_from_name(E["scanner"].get<std::string>()));
+      if (w.sc->get_type() == Scanner::Unknown_scanner || w.sc->get_scanner_geometry() != "Cylindrical")
+        return Result::pass();
+      w.tmpl = vg::make_pdi(w.sc, E["pdi"]);
+      w.cyl = dynamic_cast<const ProjDataInfoCylindricalNoArcCorr*>(w.tmpl.get());
+      if (!w.cyl)
+        return Result::pass();
+      hdr_md = std::max(0, w.sc->get_num_rings() - 1 - int(E.value("md_less", 0L)));
+      hdr_pdi.reset(ProjDataInfo::construct_proj_data_info(w.sc, 1, hdr_md, w.sc->get_num_detectors_per_ring() / 2, w.sc->get_max_num_non_arccorrected_bins(), false, 0).release());
+    }
+  catch (const stir_verif::AssertionFailure&)
+    {
+      throw;
+    }
+  catch (const std::exception&)
+    {
+      stats().count("ECAT8 file sub-check: geometry rejected");
+      return Result::pass();
+    }
+  const ProjDataInfoCylindricalNoArcCorr* hcyl = dynamic_cast<const ProjDataInfoCylindricalNoArcCorr*>(hdr_pdi.get());
+  w.has_delayeds = true;
+  {
+    json cc = c;
+    cc["has_delayeds"] = true;
+    w.recs = decode_stream(cc, *w.sc, w.tmpl->get_max_tangential_pos_num() + 3);
+  }
+  // ---- encode; events that the format cannot hold are dropped from the stream
+  const int ntang = hdr_pdi->get_num_tangential_poss(), nviews = hdr_pdi->get_num_views();
+  std::map<int, long> seg_offset;
+  {
+    long z = 0;
+    for (int a = 0; a <= hdr_pdi->get_max_segment_num(); ++a)
+      for (int sg : (a == 0 ? std::vector<int>{ 0 } : std::vector<int>{ -a, a }))
+        {
+          seg_offset[sg] = z;
+          z += hdr_pdi->get_num_axial_poss(sg);
+        }
+  }
+  std::vector<std::uint32_t> words;
+  std::vector<Rec> kept;
+  for (const Rec& r : w.recs)
+    {
+      if (r.kind == 0)
+        {
+          if (r.ms >= (1UL << 29))
+            break;
+          words.push_back(c14f::ecat8_time(std::uint32_t(r.ms)));
+          kept.push_back(r);
+          if (r.ms % 5 == 0) // a tag word that is neither a time tick nor an event: must be ignored by every reader
+            words.push_back(c14f::ecat8_other_tag(std::uint32_t(r.ms), 1 + unsigned(r.ms % 3)));
+          continue;
+        }
+      Bin b;
+      const DetectionPositionPair<> dp(DetectionPosition<>(r.d1, r.r1, 0), DetectionPosition<>(r.d2, r.r2, 0), 0);
+      if (hcyl->get_bin_for_det_pos_pair(b, dp) != Succeeded::yes || b.tangential_pos_num() < hdr_pdi->get_min_tangential_pos_num()
+          || b.tangential_pos_num() > hdr_pdi->get_max_tangential_pos_num() || b.segment_num() < hdr_pdi->get_min_segment_num()
+          || b.segment_num() > hdr_pdi->get_max_segment_num())
+        continue;
+      const long z = seg_offset[b.segment_num()] + b.axial_pos_num();
+      const long offset = (z * nviews + b.view_num()) * ntang + (b.tangential_pos_num() + ntang / 2);
+      if (offset >= (1L << 30))
+        continue;
+      words.push_back(c14f::ecat8_event(std::uint32_t(offset), r.kind == 1));
+      kept.push_back(r);
+    }
+  w.recs = kept;
+  w.index.pdi = w.tmpl;
+  vp::ExplicitP::enumerate_bins(*w.tmpl, w.index.bins);
+  w.bins = w.index.bins;
+
+  const std::string data_name = "lm_ecat8.l", hdr_name = cat(dir, "/lm_ecat8.l.hdr");
+  c14f::write_words32(cat(dir, "/", data_name), words);
+  {
+    std::string seg_table = "{";
+    const int nseg_hdr = 2 * hdr_md + 1;
+    for (int a = 0; a <= hdr_md; ++a)
+      for (int sg : (a == 0 ? std::vector<int>{ 0 } : std::vector<int>{ -a, a }))
+        seg_table += cat(sg == 0 ? "" : ",", hdr_pdi->get_num_axial_poss(sg));
+    seg_table += "}";
+    // keys as in the Siemens header of the repository's recon_test_pack (PET_ACQ_small.l.hdr.STIR)
+    const std::string h = cat("!INTERFILE:=\n!originating system:=", E["scanner"].get<std::string>(),
+                              "\n%SMS-MI header name space:=PETLINK bin address\n%SMS-MI version number:=3.4\n\n!GENERAL DATA:=\n!data offset in bytes:=0\nname of data file := ",
+                              data_name,
+                              "\n!GENERAL IMAGE DATA:=\n!type of data:=PET\n%patient orientation:=HFS\nPET data type:=Emission\ndata format:=CoincidenceList\n"
+                              "!PET STUDY (Emission data):=\nPET scanner type:=cylindrical\nnumber of rings:=",
+                              w.sc->get_num_rings(), "\n%number of TOF time bins:=1\n%TOF mashing factor:=1\n\n!IMAGE DATA DESCRIPTION:=\nimage duration (sec):=900\n"
+                                                     "%COINCIDENCE LIST DATA:=\n%LM event and tag words format (bits):=32\n%axial compression:=1\n%maximum ring difference:=",
+                              hdr_md, "\n%number of projections:=", ntang, "\n%number of views:=", nviews, "\n%number of segments:=", nseg_hdr, "\n%segment table:=", seg_table, "\n");
+    c14f::write_text(hdr_name, h);
+  }
+  shared_ptr<ecat::CListModeDataECAT8_32bit> lm;
+  try
+    {
+      lm.reset(new ecat::CListModeDataECAT8_32bit(hdr_name));
+    }
+  catch (const stir_verif::AssertionFailure&)
+    {
+      throw;
+    }
+  catch (const std::exception& e)
+    {
+      return Result::fail(cat("ECAT8 list-mode header written by the harness (keys of the repository's sample header) is not read: ", e.what()));
+    }
+  VF_CHECK(lm->get_scanner() == *w.sc, "ECAT8 file: scanner of the list-mode data is not '", E["scanner"].get<std::string>(), "'");
+
+  // ---- record by record
+  {
+    shared_ptr<CListRecord> rec_sptr = lm->get_empty_record_sptr();
+    CListRecord& rec = *rec_sptr;
+    std::size_t n = 0;
+    long others = 0;
+    while (lm->get_next_record(rec) == Succeeded::yes)
+      {
+        if (!rec.is_time() && !rec.is_event())
+          {
+            ++others;
+            continue;
+          }
+        VF_CHECK(n < w.recs.size(), "ECAT8 file with ", w.recs.size(), " time/event words: more read");
+        const Rec& r = w.recs[n];
+        if (r.kind == 0)
+          VF_CHECK(rec.is_time() && !rec.is_event() && rec.time().get_time_in_millisecs() == r.ms, "ECAT8 file word ", n, " written as time ", r.ms, " ms: is_time ",
+                   rec.is_time(), " time ", rec.is_time() ? rec.time().get_time_in_millisecs() : 0UL);
+        else
+          {
+            VF_CHECK(rec.is_event() && !rec.is_time() && rec.event().is_prompt() == (r.kind == 1), "ECAT8 file word ", n, " written as ", r.kind == 1 ? "prompt" : "delayed",
+                     ": is_event ", rec.is_event(), " is_prompt ", rec.is_event() ? rec.event().is_prompt() : false);
+            Bin bt;
+            bt.set_bin_value(1.f);
+            rec.event().get_bin(bt, *w.tmpl);
+            const long got = bt.get_bin_value() > 0 ? w.index.bin_index(bt) : -1;
+            const long want = bin_of(w, r);
+            VF_CHECK(got == want, "ECAT8 file word ", n, " (detectors ", r.d1, "/", r.r1, " - ", r.d2, "/", r.r2, "): get_bin gives template bin index ", got,
+                     got >= 0 ? show_bin(w.bins[std::size_t(got)]) : std::string(), ", the geometry assigns ", want, want >= 0 ? show_bin(w.bins[std::size_t(want)]) : std::string());
+          }
+        ++n;
+      }
+    VF_CHECK(n == w.recs.size(), "ECAT8 file with ", w.recs.size(), " time/event words: ", n, " read");
+    stats().count("ECAT8 file words round-tripped", long(n));
+    stats().count("ECAT8 file other tag words skipped", others);
+  }
+
+  // ---- histogramming the file
+  const bool store_prompts = c["store_prompts"].get<bool>(), store_delayeds = c["store_delayeds"].get<bool>() || !store_prompts;
+  std::vector<std::pair<long, long>> frames = frames_from_case(c);
+  if (frames.size() > 3)
+    frames.resize(3);
+  std::vector<Expect> ex;
+  if (frames.empty())
+    ex.push_back(expected(w, Selection(), store_prompts, store_delayeds));
+  for (auto& fr : frames)
+    {
+      Selection sel;
+      sel.use_time = true;
+      sel.s_ms = fr.first;
+      sel.e_ms = fr.second;
+      ex.push_back(expected(w, sel, store_prompts, store_delayeds));
+    }
+  const int nseg_mem = 1 + int(E.value("nseg", 0L) % std::max(1, w.tmpl->get_num_segments()));
+  {
+    long acc = 0;
+    for (auto& e : ex)
+      acc += e.n_accepted;
+    stats().count("ECAT8 file: events accepted by the template in the frames", acc);
+  }
+  {
+    RunCfg cfg;
+    cfg.nseg = nseg_mem;
+    RunOpts o;
+    o.frames = frames;
+    o.store_prompts = store_prompts;
+    o.store_delayeds = store_delayeds;
+    const auto res = run_lm_to_projdata(w, lm, o, cfg, dir);
+    PROPAGATE(compare_hist(w, res[0], ex.back().hist,
+                           cat("ECAT8 list-mode file (", E["scanner"].get<std::string>(), "), num_segments_in_memory ", cfg.nseg, ", in-memory output, last frame (", ex.size(), ")")));
+    stats().count("LmToProjData runs");
+  }
+
+  // ---- the route of the lm_to_projdata utility: everything in files, LmToProjData(par_filename)
+  PROPAGATE(lm_to_projdata_route(w, hdr_name, frames, ex, store_prompts, store_delayeds, nseg_mem, dir, cat("ECAT8 input file (", E["scanner"].get<std::string>(), ")")));
+  stats().cls("ECAT8 file: words round trip + LmToProjData");
   return Result::pass();
 }
 
@@ -999,7 +1993,7 @@ check(const json& c)
   stats().count("records", long(w.recs.size()));
   stats().count("events", n_events);
   stats().count("time marks", n_marks);
-  stats().cls(mode == 0 ? "mode: time frames" : mode == 1 ? "mode: num_events_to_store" : "mode: whole stream");
+  stats().cls(mode == 0 ? "mode: time frames" : mode == 1 ? "mode: num_events_to_store" : mode == 3 ? "mode: time frames from a file" : "mode: whole stream");
   stats().cls(w.tmpl->get_num_tof_poss() > 1 ? "template: TOF" : "template: non-TOF");
   if (n_delayeds > 0)
     stats().cls("stream with delayeds");
@@ -1014,7 +2008,130 @@ check(const json& c)
 
   Selection lik_sel;
 
-  if (mode == 0)
+  // ---- clause A: the frame-definition file of the Case is read back (every mode; mode 3 histograms with it) ----
+  std::string frame_file;
+  if (c.contains("fdef"))
+    PROPAGATE(check_frame_file(c, dir.path, frame_file));
+
+  if (mode == 3)
+    {
+      // ---- frames from a file: .fdef text or Interfile header, given by the keyword "frame_definition file" (as lm_to_projdata
+      //      is normally configured) or read by the caller with TimeFrameDefinitions(filename) and given to the setter.
+      //      One process_data() call for all frames, as a user does it:
+      //        file output: <prefix>_f<k>g1d0b0.hs must be the histogram of frame k;
+      //        in-memory output object: set_output_projdata_sptr documents "will only store data from the last defined time frame".
+      VF_CHECK(!frame_file.empty(), "mode 3 needs the Case key 'fdef'");
+      const json P = c.value("p", json::object());
+      int max_seg = int(P.value("max_seg", -1L));
+      long cut = P.value("cut", 0L);
+      if (cut > 0 && exclusion_on("F6"))
+        { // finding C14-F6: with the keyword "frame_definition file" a positive num_events_to_store is ignored
+          cut = 0;
+          excluded(SIG_F6);
+        }
+      long boundary_marks = 0;
+      for (const Rec& r : w.recs)
+        if (r.kind == 0)
+          for (auto& fr : frames)
+            if (long(r.ms) == fr.first || long(r.ms) == fr.second)
+              ++boundary_marks;
+      if (boundary_marks)
+        stats().cls("time mark exactly on a frame boundary");
+      if (max_seg >= 0)
+        stats().cls("keyword 'maximum absolute segment number to process'");
+      std::vector<Expect> ex;
+      long oor = 0, neg = 0, gaps = 0;
+      for (std::size_t f = 0; f < frames.size(); ++f)
+        {
+          Selection sel;
+          sel.use_time = true;
+          sel.s_ms = frames[f].first;
+          sel.e_ms = frames[f].second;
+          if (f > 0 && frames[f].first != frames[f - 1].second)
+            ++gaps;
+          ex.push_back(expected(w, sel, store_prompts, store_delayeds));
+          if (max_seg >= 0) // reduce_segment_range(-m, m) of the template: nothing is stored in the other segments
+            for (std::size_t i = 0; i < w.bins.size(); ++i)
+              if (std::abs(w.bins[i].segment_num()) > max_seg)
+                ex.back().hist[i] = 0.;
+          oor += ex.back().n_out_of_range;
+          neg += ex.back().n_negative_bins;
+        }
+      if (gaps)
+        stats().cls("frames from a file with gaps between them");
+      if (frames.size() > 1)
+        stats().cls("frames from a file: more than one frame");
+      Expect ex_cut; // documented for num_events_to_store > 0: "frame definitions will be ignored"
+      if (cut > 0)
+        {
+          Selection sel;
+          sel.cut = cut;
+          ex_cut = expected(w, sel, store_prompts, store_delayeds);
+          if (max_seg >= 0)
+            max_seg = -1; // keep the probe of the finding simple
+        }
+      for (std::size_t k = 0; k < cfgs.size(); ++k)
+        {
+          RunOpts o;
+          o.frame_file = frame_file;
+          o.num_frames_in_file = cut > 0 ? 1 : frames.size();
+          o.cut = cut;
+          o.store_prompts = store_prompts;
+          o.store_delayeds = store_delayeds;
+          o.max_seg = max_seg;
+          RunCfg cfg = cfgs[k];
+          if (cut > 0)
+            {
+              cfg.frame_file_route = 0;
+              cfg.all_via_parser = true;
+              cfg.to_file = false;
+            }
+          bool dtf = false;
+          const auto res = run_lm_to_projdata(w, lm, o, cfg, dir.path, &dtf);
+          const std::string ctx
+              = cat("frames from ", fdef_of_case(c).kind == 0 ? ".fdef file" : "Interfile header", cfg.frame_file_route == 0 ? " (keyword 'frame_definition file')" : " (TimeFrameDefinitions(file) + setter)",
+                    cfg.all_via_parser ? ", all options parsed" : "", max_seg >= 0 ? cat(", max segment ", max_seg) : std::string(), ", num_segments_in_memory ", cfg.nseg,
+                    ", num_TOF_bins_in_memory ", cfg.ntof, " (", num_batches(w, cfg), " batches), ", cfg.to_file ? "file" : "in-memory", " output");
+          if (cut > 0)
+            {
+              VF_CHECK(res.size() == 1, ctx, ": ", res.size(), " outputs");
+              PROPAGATE(compare_hist(w, res[0], ex_cut.hist, cat("num_events_to_store ", cut, " together with a frame definition file (documented: frame definitions are ignored), ", ctx)));
+              continue;
+            }
+          VF_CHECK(dtf, "frame definition file given and num_events_to_store == 0, but do_time_frame is false");
+          if (cfg.to_file)
+            {
+              VF_CHECK(res.size() == frames.size(), ctx, ": ", res.size(), " files for ", frames.size(), " frames");
+              for (std::size_t f = 0; f < frames.size(); ++f)
+                PROPAGATE(compare_hist(w, res[f], ex[f].hist, cat("frame ", f + 1, " of ", frames.size(), " [", frames[f].first, ",", frames[f].second, ") ms, ", ctx)));
+              stats().cls("frames from a file: multi-frame run with file output");
+            }
+          else
+            {
+              VF_CHECK(res.size() == 1, ctx, ": ", res.size(), " outputs");
+              const std::size_t f = frames.size() - 1;
+              PROPAGATE(compare_hist(w, res[0], ex[f].hist,
+                                     cat("last frame (", f + 1, " of ", frames.size(), ") [", frames[f].first, ",", frames[f].second, ") ms in the output object, ", ctx)));
+              stats().cls("frames from a file: run with in-memory output (last frame)");
+            }
+          stats().cls(cfg.frame_file_route == 0 ? "frames from a file: keyword 'frame_definition file'" : "frames from a file: TimeFrameDefinitions(file) + setter");
+          stats().count("LmToProjData runs");
+        }
+      if (oor)
+        stats().cls("event outside the template's ranges inside a frame");
+      if (neg)
+        stats().cls("negative bin (more delayeds than prompts)");
+      std::size_t lf = std::size_t(pmod(c["lik"].value("frame", 0L), long(frames.size())));
+      lik_sel.use_time = true;
+      for (std::size_t t = 0; t < frames.size(); ++t, lf = (lf + 1) % frames.size())
+        {
+          lik_sel.s_ms = frames[lf].first;
+          lik_sel.e_ms = frames[lf].second;
+          if (c["lik"].value("on", false) && expected(w, lik_sel, true, false).n_accepted > 0)
+            break;
+        }
+    }
+  else if (mode == 0)
     {
       // ---- time frames: one run per frame and batching setting (in-memory output keeps only the last frame of a run) ----
       long boundary_marks = 0;
@@ -1072,6 +2189,23 @@ check(const json& c)
               stats().cls("partition additivity checked");
             }
         }
+      // one process_data() call for all frames with an in-memory output object: set_output_projdata_sptr documents
+      // "will only store data from the last defined time frame!"
+      if (frames.size() > 1)
+        for (std::size_t k = 0; k < cfgs.size(); ++k)
+          if (!cfgs[k].to_file && (k + frames.size()) % 2 == 1)
+            {
+              const auto res = run_lm_to_projdata(w, lm, frames, 0, cfgs[k], store_prompts, store_delayeds, dir.path);
+              Selection sel;
+              sel.use_time = true;
+              sel.s_ms = frames.back().first;
+              sel.e_ms = frames.back().second;
+              PROPAGATE(compare_hist(w, res[0], expected(w, sel, store_prompts, store_delayeds).hist,
+                                     cat("multi-frame run with an in-memory output object: last frame (", frames.size(), ") [", sel.s_ms, ",", sel.e_ms,
+                                         ") ms expected in the object, num_segments_in_memory ", cfgs[k].nseg, ", num_TOF_bins_in_memory ", cfgs[k].ntof)));
+              stats().cls("multi-frame run with in-memory output (last frame)");
+              stats().count("LmToProjData runs");
+            }
       // one process_data() call for all frames with file output (<prefix>_f<k>g1d0b0.hs per frame)
       for (std::size_t k = 0; k < cfgs.size(); ++k)
         if (cfgs[k].to_file)
@@ -1120,6 +2254,10 @@ check(const json& c)
       const Expect ex = expected(w, sel, store_prompts, store_delayeds);
       if (mode == 1)
         stats().cls(ex.cut_reached ? "cut-off reached before the end of the stream" : "cut-off beyond the end of the stream");
+      if (mode == 1 && ex.cut_reached && store_prompts && store_delayeds && ex.n_delayeds_acc > 0)
+        stats().cls("cut-off counts prompts - delayeds: delayeds subtracted before the cut");
+      if (mode == 1 && ex.cut_reached && !store_prompts && ex.n_delayeds_acc > 0)
+        stats().cls("cut-off counts delayeds (delayeds only)");
       if (ex.n_out_of_range)
         stats().cls("event outside the template's ranges inside a frame");
       if (ex.n_negative_bins)
@@ -1143,6 +2281,18 @@ check(const json& c)
 
   if (c["lik"].value("on", false))
     PROPAGATE(check_likelihood(c, w, lik_sel, dir.path));
+
+  // ---- clause E: object reuse
+  if (c.contains("hist") && c["hist"].get<long>() >= 0)
+    PROPAGATE(check_reuse(c, w, cfgs, store_prompts, store_delayeds, dir.path));
+
+  // ---- clause D: decoders of the list-mode file formats
+  if (c.contains("dec") && c["dec"].value("ecat8", false))
+    PROPAGATE(check_ecat8_records(w));
+  if (c.contains("safir") && c["safir"].value("on", false))
+    PROPAGATE(check_safir(c, dir.path));
+  if (c.contains("e8") && c["e8"].value("on", false))
+    PROPAGATE(check_ecat8_file(c, dir.path));
   return Result::pass();
 }
 
@@ -1183,6 +2333,12 @@ gen(Src& s, int size)
     c["ax_trim"] = json::array({ int(s.range(0, 8)), int(s.range(1, 2)), 0 });
   c["has_delayeds"] = s.chance(5, 6);
   c["lm_uncompressed"] = s.coin();
+  // ---- what is histogrammed: 0 frames through the setter, 3 frames from a file, 1 num_events_to_store, 2 whole stream
+  const int m = int(s.range(0, 19));
+  const int mode = m < 9 ? 0 : (m < 14 ? 3 : (m < 18 ? 1 : 2));
+  c["mode"] = mode;
+  // time unit of the marks: frames read from a file have boundaries at multiples of 125 ms (see fdef_of_case)
+  c["tick"] = mode == 3 ? s.pick(std::vector<long>{ 125, 125, 25, 1 }) : (s.chance(1, 8) ? 25L : 1L);
 
   // ---- record stream: explicit (shrinkable) part + optional seeded tail
   const int ndet = sc->get_num_detectors_per_ring(), rings = sc->get_num_rings();
@@ -1233,9 +2389,6 @@ gen(Src& s, int size)
       ++n_events;
   const long tmax = marks.empty() ? 0 : marks.back();
 
-  // ---- what is histogrammed
-  const int m = int(s.range(0, 19));
-  c["mode"] = m < 13 ? 0 : (m < 18 ? 1 : 2);
   auto boundary = [&]() -> long {
     const int how = int(s.range(0, 5));
     if (!marks.empty() && how <= 3)
@@ -1260,11 +2413,67 @@ gen(Src& s, int size)
       b[k] = std::max(std::max(b[k], b[k - 1] + 1), 20L);
     c["bounds"] = b;
   }
-  c["cut"] = s.chance(1, 5) ? s.range(1, std::max(1L, n_events + 2)) : s.range(1, std::max(1L, n_events / 3));
-  c["cut_frame_end"] = s.coin() ? 0 : s.range(20, tmax + 60);
   const int sp = int(s.range(0, 3));
   c["store_prompts"] = sp != 3;
   c["store_delayeds"] = sp == 0 || sp == 1 || sp == 3;
+  {
+    // cut-off: mostly a value that the running total "prompts - delayeds" (of the events the template accepts) does reach
+    long max_net = 0;
+    try
+      {
+        const World gw = make_world(c);
+        const bool stp = c["store_prompts"].get<bool>(), std_ = c["store_delayeds"].get<bool>() || !stp;
+        const int inc_p = stp ? 1 : 0, inc_d = stp ? (std_ ? -1 : 0) : 1;
+        long net = 0;
+        for (const Rec& r : gw.recs)
+          if (r.kind != 0 && bin_of(gw, r) >= 0)
+            {
+              net += r.kind == 1 ? inc_p : inc_d;
+              max_net = std::max(max_net, net);
+            }
+      }
+    catch (...)
+      {
+      }
+    c["cut"] = (max_net >= 1 && !s.chance(1, 5)) ? s.range(1, max_net) : s.range(1, std::max(1L, n_events + 2));
+  }
+  c["cut_frame_end"] = s.coin() ? 0 : s.range(20, tmax + 60);
+  {
+    // ---- frame definitions as a file (read back in every mode; mode 3 histograms with them)
+    json fd;
+    fd["kind"] = s.chance(1, 3) ? 1 : 0;
+    fd["nl"] = !s.chance(1, 5);
+    const long unit = mode == 3 ? 125L : s.pick(std::vector<long>{ 1, 1, 10, 125, 1000 });
+    fd["unit"] = unit;
+    const int K = int(s.small(1, 6));
+    json lines = json::array();
+    long prev = 0; // in units
+    const long span_units = std::max(4L, (tmax + 60) / unit);
+    for (int k = 0; k < K; ++k)
+      {
+        long num = s.pick(std::vector<long>{ 0, 1, 1, 1, 2, 3 });
+        long u;
+        if (k == 0 && num == 0 && s.chance(1, 4))
+          u = -s.range(1, 8); // leading negative skip (normalised by decode_fdef if it is too long for the first frame)
+        else if (num == 0 && s.chance(1, 6))
+          u = 0; // "0 0"
+        else
+          {
+            u = s.small(1, std::max(2L, 2 * span_units / K));
+            if (!marks.empty() && s.coin())
+              { // end this entry exactly on (or one unit next to) a time mark
+                const long mk = marks[std::size_t(s.range(0, long(marks.size()) - 1))] / unit + s.pick(std::vector<long>{ 0, 0, 0, 1, -1 });
+                const long n = std::max(1L, num);
+                if (mk > prev && (mk - prev) % n == 0)
+                  u = (mk - prev) / n;
+              }
+          }
+        prev += u * std::max(1L, num);
+        lines.push_back(json::array({ num, u, int(s.range(0, 3)), int(s.range(0, 5)) }));
+      }
+    fd["lines"] = lines;
+    c["fdef"] = fd;
+  }
 
   // ---- batching settings: the first run keeps everything in memory
   shared_ptr<ProjDataInfo> tmpl = make_template(sc, c);
@@ -1278,9 +2487,16 @@ gen(Src& s, int size)
       long b = s.chance(1, 4) ? -1 : s.range(1, ntofs + 1);
       if (nsegs > 1 && ntofs == 1 && k == 0 && a == -1)
         a = s.range(1, nsegs - 1);
-      runs.push_back(json::array({ a, b, s.chance(1, 5) ? 1 : 0, s.chance(1, 4) ? 1 : 0 }));
+      runs.push_back(json::array({ a, b, s.chance(1, mode == 3 ? 2 : 5) ? 1 : 0, s.chance(1, 4) ? 1 : 0, s.chance(1, 3) ? 1 : 0, s.chance(1, 3) ? 1 : 0 }));
     }
   c["runs"] = runs;
+  {
+    // ---- options that only the parser can set (mode 3)
+    json P;
+    P["max_seg"] = s.chance(1, 5) ? s.range(0, std::max(0, tmpl->get_max_segment_num())) : -1L;
+    P["cut"] = s.chance(1, 10) ? s.range(1, std::max(1L, n_events / 3)) : 0L; // finding C14-F6 (excluded unless VERIF_NO_EXCLUDE=1)
+    c["p"] = P;
+  }
 
   // ---- likelihood clause
   json L;
@@ -1302,6 +2518,75 @@ gen(Src& s, int size)
       L["frame"] = int(s.range(0, 7));
     }
   c["lik"] = L;
+
+  c["hist"] = s.chance(1, 3) ? s.range(0, 4) : -1L;
+  // ---- decoders of the list-mode file formats (clause D)
+  c["dec"] = json{ { "ecat8", s.chance(1, 4) } };
+  {
+    json S;
+    S["on"] = s.chance(1, 6);
+    if (S["on"].get<bool>())
+      {
+        vg::ScannerOpts bo;
+        bo.max_ndet = 24;
+        bo.max_rings = 4;
+        bo.allow_tof = false;
+        bo.allow_tilt = false;
+        bo.allow_blocks = true;
+        json sj;
+        for (int tries = 0; tries < 12; ++tries)
+          { // blocks-on-cylindrical geometry (the only generated scanners with a detector map)
+            sj = vg::gen_scanner(s, bo);
+            if (sj["geometry"].get<std::string>() == "BlocksOnCylindrical")
+              break;
+          }
+        if (sj["geometry"].get<std::string>() != "BlocksOnCylindrical")
+          S["on"] = false;
+        else
+          {
+            S["scanner"] = sj;
+            shared_ptr<Scanner> bsc = vg::make_scanner(sj);
+            vg::PdiOpts bp;
+            bp.max_span = 5;
+            bp.allow_trim = true;
+            S["pdi"] = vg::gen_pdi(s, *bsc, bp);
+            S["pdi"]["arccorr"] = false;
+            S["nseg"] = int(s.range(0, 6));
+          }
+      }
+    c["safir"] = S;
+  }
+  {
+    json E;
+    E["on"] = s.chance(1, 6);
+    if (E["on"].get<bool>())
+      {
+        const std::string name = s.pick(std::vector<std::string>{ "ECAT 931", "ECAT 931", "ECAT 953", "ECAT 951" });
+        E["scanner"] = name;
+        shared_ptr<Scanner> esc(Scanner::get_scanner_from_name(name));
+        const int rings = esc->get_num_rings(), nd = esc->get_num_detectors_per_ring();
+        std::vector<int> views;
+        for (int v : vg::divisors(nd / 2))
+          if (v >= 2 && v <= 12)
+            views.push_back(v);
+        json pj;
+        std::vector<int> spans;
+        for (int k = 1; k <= std::min(5, 2 * rings - 1); k += 2)
+          spans.push_back(k);
+        const int span = s.pick(spans);
+        pj["span"] = span;
+        pj["max_delta"] = int(s.range(span / 2, std::min(rings - 1, 5)));
+        pj["views"] = s.pick(views);
+        pj["tang"] = int(s.range(3, 25));
+        pj["arccorr"] = false;
+        pj["tof_mash"] = 0;
+        pj["trim"] = json::object();
+        E["pdi"] = pj;
+        E["md_less"] = s.chance(1, 3) ? 1 : 0;
+        E["nseg"] = int(s.range(0, 6));
+      }
+    c["e8"] = E;
+  }
   return c;
 }
 
@@ -1375,6 +2660,8 @@ fixed_cases(int)
   base["pdi"] = pdi;
   base.erase("ax_trim");
   base.erase("bulk");
+  base["tick"] = 1;
+  base["p"] = json{ { "max_seg", -1 }, { "cut", 0 } };
   base["has_delayeds"] = true;
   base["store_prompts"] = true;
   base["store_delayeds"] = true;
@@ -1397,6 +2684,23 @@ fixed_cases(int)
     c["cut_frame_end"] = 0;
     v.push_back(c);
     c["mode"] = 2;
+    v.push_back(c);
+  }
+  // (3) the pattern documented in TimeFrameDefinitions.cxx: "3 50.5 / 1 10 / 0 3 / 1 9" (3 frames of 50.5 s, 1 frame of 10 s, a gap
+  //     of 3 s, 1 frame of 9 s), as .fdef text and as Interfile header, time marks on every boundary, events in the gap
+  {
+    json c = base;
+    c["tick"] = 500;
+    // marks at 50.5, 101, 151.5, 161.5, 164.5, 173.5 s (in units of 0.5 s: 101, 101, 101, 20, 6, 18), events between them
+    c["stream"] = json::array({ ev(1, 0, 3, 0, 0), json::array({ 0, 101 }), ev(1, 1, 3, 0, 2), json::array({ 0, 101 }), ev(1, 2, 3, 1, 1), ev(2, 2, 3, 1, 1),
+                                json::array({ 0, 101 }), ev(1, 5, 2, 2, 0), json::array({ 0, 20 }), ev(1, 0, 3, 0, 0), ev(1, 0, 3, 0, 0), json::array({ 0, 6 }),
+                                ev(1, 4, 2, 1, 2), ev(1, 3, 3, 2, 2), json::array({ 0, 18 }), ev(1, 4, 2, 1, 2), json::array({ 0, 1 }), ev(1, 4, 2, 1, 2) });
+    c["mode"] = 3;
+    c["fdef"] = json{ { "kind", 0 }, { "nl", true }, { "unit", 500 },
+                      { "lines", json::array({ json::array({ 3, 101, 0, 0 }), json::array({ 1, 20, 0, 0 }), json::array({ 0, 6, 0, 0 }), json::array({ 1, 18, 0, 0 }) }) } };
+    c["runs"] = json::array({ json::array({ -1, -1, 0, 0, 0, 0 }), json::array({ 1, -1, 1, 0, 1, 0 }), json::array({ 2, 1, 1, 0, 0, 1 }), json::array({ 7, -1, 0, 0, 1, 0 }) });
+    v.push_back(c);
+    c["fdef"]["kind"] = 1;
     v.push_back(c);
   }
   // (2) empty stream; only time marks; only delayeds stored
